@@ -6,12 +6,29 @@ use std::io::{BufRead, BufWriter, Write};
 use std::panic::{catch_unwind, AssertUnwindSafe};
 use vcommon::*;
 
+mod calls;
+
 fn mvs(v: &Value) -> Vec<MV> {
     v.as_array().unwrap().iter().map(|x| serde_json::from_value(x.clone()).expect("model value")).collect()
 }
 
 fn main() {
     let args: Vec<String> = std::env::args().collect();
+    if args.len() >= 4 && args[1] == "calls" {
+        std::panic::set_hook(Box::new(|_| {}));
+        let input = std::fs::File::open(&args[2]).expect("records");
+        let mut out = BufWriter::new(std::fs::File::create(&args[3]).expect("out"));
+        for (idx, line) in std::io::BufReader::new(input).lines().enumerate() {
+            let line = line.unwrap();
+            if line.trim().is_empty() {
+                continue;
+            }
+            let rec: Value = serde_json::from_str(&line).expect("json");
+            writeln!(out, "{}", json!({"kind": "result", "i": idx, "fails": calls::replay(&rec)})).unwrap();
+        }
+        writeln!(out, "{}", json!({"kind": "wide", "i": -1, "fails": calls::wide()})).unwrap();
+        return;
+    }
     if args.len() >= 4 && args[1] == "ledger" {
         // C15: Ledger.tla histories on a real directory
         std::panic::set_hook(Box::new(|_| {}));
